@@ -98,7 +98,7 @@ macro "imp_eval" : tactic => `(tactic| simp (config := { zetaDelta := true }) [e
 /-- the side condition of an induction hypothesis: no panic event in the sub-term, in the state the
 sub-call starts in (same current loop, same depth) -/
 macro "imp_side" : tactic => `(tactic| (
-  simp only [res_bodies, res_depth, add_bodies, add_depth, record_bodies, record_depth, currentLoop_nil,
+  try simp only [res_bodies, res_depth, add_bodies, add_depth, record_bodies, record_depth, currentLoop_nil,
     currentLoop_loop, currentLoop_branch, currentLoop_short, Option.isSome_some, Option.isSome_none]
   assumption))
 
